@@ -22,11 +22,23 @@ type leaf struct {
 	V int   `json:"v"`
 }
 
-func attrName(id int) string { return fmt.Sprintf("a%03d", id) }
+// keys 991, 992, 993 are three DIFFERENT keys cut from one string (as the segments of a dotted path would
+// be): they share their first byte's address, not their length
+const coreSharedKeyBase = "s123"
+
+func attrName(id int) string {
+	if id >= 991 && id <= 993 {
+		return coreSharedKeyBase[:id-989]
+	}
+	return fmt.Sprintf("a%03d", id)
+}
 
 var coreReKeyID = regexp.MustCompile(`^a(\d{3})$`)
 
 func keyID(name string) (int, bool) {
+	if len(name) >= 2 && len(name) <= 4 && name == coreSharedKeyBase[:len(name)] {
+		return 989 + len(name), true
+	}
 	m := coreReKeyID.FindStringSubmatch(name)
 	if m == nil {
 		return 0, false
@@ -44,7 +56,7 @@ func leavesOf(p []byte) []leaf {
 	return textLeaves(txt)
 }
 
-var coreReTextAttr = regexp.MustCompile(`(?:^|[ ])((?:a\d{3}\.)*a\d{3})=(-?\d+)\b`)
+var coreReTextAttr = regexp.MustCompile(`(?:^|[ ])((?:(?:a\d{3}|s1(?:23?)?)\.)*(?:a\d{3}|s1(?:23?)?))=(-?\d+)\b`)
 
 func textLeaves(txt string) []leaf {
 	res := []leaf{}
